@@ -37,3 +37,14 @@ Proof.
   rewrite !forallb_forall. intros H r Hin. specialize (H r Hin).
   apply sat_b_spec. rewrite (corr_run_obs f r H). apply S.
 Qed.
+
+(* histories: the model is per call and pure, so a history of calls (any interleaving, shared argument
+   objects snapshotted when each call is made) satisfies the property as soon as every call agrees with it *)
+Theorem calls_independent h :
+  Forall (fun c => carg_ok (c_num c) /\ carg_ok (c_den c)) (h_cases h) ->
+  corr_hist h = true -> holds_hist h = true.
+Proof.
+  intros Hok. unfold corr_hist, holds_hist. rewrite andb_true_iff. intros [_ H].
+  rewrite forallb_forall in *. intros c Hin. rewrite Forall_forall in Hok.
+  destruct (Hok c Hin) as [Hn Hd]. apply corr_implies_holds; auto.
+Qed.
